@@ -196,7 +196,7 @@ def generic_writers_rule(ctx, report, rule):
             b, t = ins[0]
             k = strip(an.operand_expr(t.args[1], b.idx, len(b.stmts)))
             v = strip(an.operand_expr(t.args[2], b.idx, len(b.stmts)))
-            kk = k.a[1][0] if (k.k == "call" and k.a[0].name in ("to_vec", "into", "to_owned") and k.a[1]) else k
+            kk = k.a[1][0] if (k.k == "call" and k.a[0].name in ("to_vec", "into", "to_owned", "from", "clone") and k.a[1]) else k
             ok = strip(kk).k == "param" and strip(kk).a[0] == 2 and v.k == "param" and v.a[0] == 3 and all(an.cfg.dominates(b.idx, x) for x in an.cfg.exits)
         report.check(rule, "add_value_rlp/generic", ok, "add_value_rlp stores (key, rlp) unchanged in the builder's map", "add_value_rlp does not store exactly (key, rlp)", fn=f.path, sp=f.span, config=cfg)
 
@@ -370,7 +370,7 @@ def readers_rule(ctx, report, rule="READ"):
                     a0 = ok_payload(strip(v.a[1][0]))
                     a1 = ok_payload(strip(v.a[1][1]))
                     c0 = a0 is not None and strip(a0).k == "call" and strip(a0).a[0].target() == "Enr::<K>::" + ipg
-                    c1 = a1 is not None and strip(a1).k == "call" and strip(a1).a[0].target() == "Enr::<K>::" + portg
+                    c1 = a1 is not None and port_read_key(strip(a1)) == PORT_GETTERS["Enr::<K>::" + portg]
                     rest = all(strip(x).k == "const" and strip(x).a[0] == 0 for x in v.a[1][2:])
                     if c0 and c1 and rest:
                         good += 1
@@ -381,10 +381,22 @@ def readers_rule(ctx, report, rule="READ"):
                 if es.k == "call" and es.a[0].name == "from_residual":
                     continue
                 bad.append(short(es, 120))
-        # Some must be returned whenever both are Some: the only None paths are guarded by a None of one of them
-        report.check(rule, f.name, good >= 1 and not bad, "%s() = Some(%s::new(%s()?, %s()?))" % (f.name, ctor, ipg, portg),
-                     "%s() is not exactly the combination of %s() and %s(): %s" % (f.name, ipg, portg, bad), fn=f.path, sp=f.span, config=cfg)
-        none_only_when_missing(ctx, report, rule, f, ipg, portg)
+        tt = socket_truth_table(ctx, f, an, ipg, portg, ctor)
+        if tt and zip_map_socket(ctx, an, ipg, portg, ctor):
+            tt = []  # a().zip(b()).map(|(x, y)| Ctor::new(x, y, 0..)): Some exactly when both are Some (Option::zip / map contracts)
+        if not tt:
+            report.check(rule, f.name, True, "%s() = Some(%s::new(%s()?, %s()?)) (decided by cases over the presence of both parts)" % (f.name, ctor, ipg, portg), fn=f.path, sp=f.span, config=cfg)
+            report.check(rule, f.name + "/none", True, "%s() is None only when %s() or %s() is None" % (f.name, ipg, portg), fn=f.path, sp=f.span, config=cfg)
+        elif good >= 1 and not bad:
+            report.check(rule, f.name, True, "%s() = Some(%s::new(%s()?, %s()?))" % (f.name, ctor, ipg, portg), fn=f.path, sp=f.span, config=cfg)
+            none_only_when_missing(ctx, report, rule, f, ipg, portg)
+        else:
+            # decide by cases over the presence of the two parts (covers `match (a(), b())`, let-else, nested if-let ...)
+            probs = socket_truth_table(ctx, f, an, ipg, portg, ctor)
+            report.check(rule, f.name, not probs, "%s() = Some(%s::new(%s()?, %s()?))" % (f.name, ctor, ipg, portg),
+                         "%s() is not exactly the combination of %s() and %s(): %s" % (f.name, ipg, portg, probs or bad), fn=f.path, sp=f.span, config=cfg)
+            report.check(rule, f.name + "/none", not probs, "%s() is None only when %s() or %s() is None" % (f.name, ipg, portg),
+                         "%s() can return None although both parts are present" % f.name, fn=f.path, sp=f.span, config=cfg)
     for path, (a, b) in REACH.items():
         f = fn_or_violate(ctx, report, rule, path)
         if f is None:
@@ -440,6 +452,115 @@ def readers_rule(ctx, report, rule="READ"):
         report.check(rule, f.name, not problems, "%s() = %s().is_some() || %s().is_some()" % (f.name, a, b), "%s() is not %s().is_some() || %s().is_some(): %s" % (f.name, a, b, "; ".join(problems[:4])), fn=f.path, sp=f.span, config=cfg)
 
 
+def zip_map_socket(ctx, an, ipg, portg, ctor):
+    import closures
+    from kernel import E, closure_of
+    rets = ret_exprs(an)
+    if len(rets) != 1:
+        return False
+    es = strip(rets[0][2])
+    if not (es.k == "call" and es.a[0].name == "map" and es.a[0].fn.startswith("std::option::Option") and len(es.a[1]) == 2):
+        return False
+    z = strip(es.a[1][0])
+    if not (z.k == "call" and z.a[0].name == "zip" and z.a[0].fn.startswith("std::option::Option") and len(z.a[1]) == 2):
+        return False
+    a, b = strip(z.a[1][0]), strip(z.a[1][1])
+    if not (a.k == "call" and a.a[0].target() == "Enr::<K>::" + ipg and port_read_key(b) == PORT_GETTERS["Enr::<K>::" + portg]):
+        return False
+    cl = closure_of(es.a[1][1])
+    body = closures.closure_return(ctx, cl[0], cl[1], [E("closure-arg")]) if cl else None
+    if not body or len(body) != 1:
+        return False
+    v = strip(body[0])
+    if not (v.k == "call" and v.a[0].name == "new" and ctor in v.a[0].full and len(v.a[1]) >= 2):
+        return False
+
+    def fld(x, i):
+        x = strip(x)
+        return x.k == "field" and x.a[1] == i and strip(x.a[0]).k == "closure-arg"
+    return fld(v.a[1][0], "0") and fld(v.a[1][1], "1") and all(strip(x).k == "const" and strip(x).a[0] == 0 for x in v.a[1][2:])
+
+
+def socket_truth_table(ctx, f, an, ipg, portg, ctor):
+    """for each presence combination of the address and the port: cut the paths
+    that contradict it and require every reachable return to be
+    Some(ctor::new(address, port, 0..)) when both are present, None otherwise"""
+    want_port = PORT_GETTERS["Enr::<K>::" + portg]
+    problems = []
+
+    def part(e):
+        e = strip(e)
+        if e.k == "call" and e.a[0].name == "branch" and e.a[0].trait == "std::ops::Try" and e.a[1]:
+            r = part(e.a[1][0])
+            return (r[0], True) if r else None
+        if e.k == "call" and e.a[0].target() == "Enr::<K>::" + ipg and e.a[1] and strip(e.a[1][0]).k == "param":
+            return ("ip", False)
+        if e.k == "call" and port_read_key(e) == want_port:
+            return ("port", False)
+        if e.k == "call" and e.a[0].name == "and_then" and e.a[1] and port_read_key(e) == want_port:
+            return ("port", False)
+        return None
+
+    seen_parts = set()
+    for A in (True, False):
+        for B in (True, False):
+            val = {"ip": A, "port": B}
+
+            def pred(cond, names, _val=val):
+                c = strip(cond)
+                if c.k == "discr" and names:
+                    r = part(c.a[0])
+                    if r is not None:
+                        seen_parts.add(r[0])
+                        if r[1]:
+                            return {"Continue"} if _val[r[0]] else {"Break"}
+                        return {"Some"} if _val[r[0]] else {"None"}
+                return None
+            van = assume(an, pred)
+            for bb, idx, e, node in ret_exprs(van):
+                es = strip(e)
+                is_none = (es.k == "agg" and es.a[0].endswith("Option::None")) or (es.k == "call" and es.a[0].name == "from_residual")
+                if A and B:
+                    good = False
+                    if es.k == "agg" and es.a[0].endswith("Option::Some"):
+                        v = strip(es.a[1]["0"])
+                        if v.k == "call" and v.a[0].name == "new" and ctor in v.a[0].full and len(v.a[1]) >= 2:
+                            a0 = ok_payload(strip(v.a[1][0]))
+                            a1 = ok_payload(strip(v.a[1][1]))
+                            c0 = a0 is not None and strip(a0).k == "call" and strip(a0).a[0].target() == "Enr::<K>::" + ipg
+                            c1 = a1 is not None and port_read_key(strip(a1)) == want_port
+                            rest = all(strip(x).k == "const" and strip(x).a[0] == 0 for x in v.a[1][2:])
+                            good = c0 and c1 and rest
+                    if not good:
+                        problems.append("with both parts present it returns %s" % short(es, 100))
+                elif not is_none:
+                    problems.append("with %s()=%s and %s()=%s it returns %s" % (ipg, "Some" if A else "None", portg, "Some" if B else "None", short(es, 80)))
+    if seen_parts != {"ip", "port"}:
+        problems.append("no test on the presence of %s" % sorted({"ip", "port"} - seen_parts))
+    return sorted(set(problems))
+
+
+def port_read_key(e):
+    """the wire key a u16 port read denotes: a call of one of the port getters,
+    or their definition `self.get_decodable::<u16>(KEY).and_then(Result::ok)` written out"""
+    e = strip(e)
+    if e.k != "call":
+        return None
+    tgt = e.a[0].target()
+    if tgt in PORT_GETTERS and e.a[1] and strip(e.a[1][0]).k == "param":
+        return PORT_GETTERS[tgt]
+    # (in success-flow normal form the `.and_then(Result::ok)` is already looked through)
+    if tgt == "Enr::<K>::get_decodable" and len(e.a[1]) == 2 and len(e.a[0].targs) > 1 and e.a[0].targs[1]["s"] == "u16" and strip(e.a[1][0]).k == "param":
+        return const_key(e.a[1][1])
+    if e.a[0].name == "and_then" and len(e.a[1]) == 2:
+        f2 = strip(e.a[1][1])
+        inner = strip(e.a[1][0])
+        if f2.k == "const" and isinstance(f2.a[0], tuple) and f2.a[0][0] == "fn" and f2.a[0][1].endswith("::ok") and inner.k == "call" and inner.a[0].target() == "Enr::<K>::get_decodable" and len(inner.a[1]) == 2:
+            if len(inner.a[0].targs) > 1 and inner.a[0].targs[1]["s"] == "u16" and strip(inner.a[1][0]).k == "param":
+                return const_key(inner.a[1][1])
+    return None
+
+
 def none_only_when_missing(ctx, report, rule, f, ipg, portg):
     """every None exit of a socket getter is behind `x() is None` for one of its two parts"""
     cfg = ctx.config
@@ -482,6 +603,8 @@ def ip_getter(ctx, f, key, n, tyname):
         es = strip(e)
         if es.k == "agg" and es.a[0].endswith("Option::None"):
             continue
+        if es.k == "call" and es.a[0].name == "from_residual" and (es.a[0].trait or "").endswith("FromResidual"):
+            continue  # `?` on a None part
         # idiom 2: <[u8; N]>::try_from(bytes).ok().map(IpvNAddr::from) - exact length by the array conversion
         if es.k == "call" and es.a[0].name == "map" and len(es.a[1]) == 2:
             fnarg = strip(es.a[1][1])
@@ -509,6 +632,12 @@ def ip_getter(ctx, f, key, n, tyname):
         v = strip(es.a[1]["0"])
         if not (v.k == "call" and v.a[0].name == "from" and tyname in v.a[0].full):
             return False, "returns %s" % short(v, 100)
+        # idiom 3: Some(IpvNAddr::from(<[u8; N]>::try_from(bytes).ok()?)) - exact length by the array conversion
+        p3 = ok_payload(strip(v.a[1][0])) if v.a[1] else None
+        t3 = strip(p3) if p3 is not None else None
+        if t3 is not None and t3.k == "call" and t3.a[0].name in ("try_from", "try_into") and ("[u8; %d]" % n) in t3.a[0].full and any(c.k == "call" and c.a[0].name == "get_decodable" for c in t3.walk()):
+            somes += 1
+            continue
         # admitted lengths at this block
         adm = [(0, guards.INF)]
         for d, cond, allowed, alll in an.constraints_at(bb):
@@ -709,24 +838,10 @@ def list_elements(f, an, c):
 # ------------------------------------------------------------------ set_socket
 
 
-def set_socket_rule(ctx, report, rule="SOCKET"):
-    """partial evaluation of set_socket over (address family, is_tcp)"""
+def _socket_keys(f, an, sock_param, flag_param, fam, fv, problems):
+    """keys (and checked values) written on the paths of (family fam, flag fv)"""
     from kernel import assume
     from rules.typestate import is_pubkey_method
-    cfg = ctx.config
-    f = fn_or_violate(ctx, report, rule, "Enr::<K>::set_socket")
-    if f is None:
-        return
-    an = ctx.an(f)
-    flag_param = None
-    sock_param = None
-    for i, t in enumerate(f.inputs):
-        if t["s"] == "bool":
-            flag_param = i + 1
-        if t["s"] == "std::net::SocketAddr":
-            sock_param = i + 1
-    table = {}
-    problems = []
 
     def is_family(c):
         inner = strip(c.a[0])
@@ -734,67 +849,106 @@ def set_socket_rule(ctx, report, rule="SOCKET"):
             return True
         return inner.k == "call" and inner.a[0].name == "ip" and "SocketAddr" in inner.a[0].fn and strip(inner.a[1][0]).k == "param" and strip(inner.a[1][0]).a[0] == sock_param
 
+    def pred(cond, names):
+        c = strip(cond)
+        neg = False
+        while c.k == "unop" and c.a[0] == "Not":
+            neg = not neg
+            c = strip(c.a[1])
+        if c.k == "discr" and names and is_family(c):
+            return {fam}
+        if flag_param is not None and c.k == "param" and c.a[0] == flag_param:
+            return _bool_keep(bool(fv) != neg)
+        return None
     # any V4/V6 decision must be taken on the socket's own address
     for n in an.cfg.nodes:
         info = an.switch_info(n)
         if info and info[0].k == "discr" and info[3] and set(info[3].values()) == {"V4", "V6"} and not is_family(info[0]):
             problems.append("an address-family decision is taken on %s, not on the socket's own address" % short(info[0].a[0], 100))
-    for fam in ("V4", "V6"):
-        for fv in (0, 1):
-            def pred(cond, names, fam=fam, fv=fv):
-                c = strip(cond)
-                neg = False
-                while c.k == "unop" and c.a[0] == "Not":
-                    neg = not neg
-                    c = strip(c.a[1])
-                if c.k == "discr" and names and is_family(c):
-                    return {fam}
-                if c.k == "param" and c.a[0] == flag_param:
-                    return _bool_keep(bool(fv) != neg)
-                return None
-            van = assume(an, pred)
-            keys = set()
-            for b, t in f.calls():
-                if b.idx not in van.cfg.succ or not (t.callee and t.callee.name == "insert" and "BTreeMap" in t.callee.fn):
-                    continue
-                kexpr = van.operand_expr(t.args[1], b.idx, len(b.stmts))
-                kb = const_key(kexpr)
-                if kb is None:
-                    if is_pubkey_method(kexpr, "enr_key") is not None:
-                        continue
-                    problems.append("(%s, is_tcp=%d): a key that is not constant on this path: %s" % (fam, fv, short(kexpr, 100)))
-                    continue
-                keys.add(kb)
-                v = value_is_rlp_of(van, t, 2)
-                want = {b"ip": ("BYTES", 4), b"ip6": ("BYTES", 16)}.get(kb, U16)
-                if v["kind"] != "rlp":
-                    problems.append("(%s, is_tcp=%d): the value stored under %r is not one RLP-encoded value (%s)" % (fam, fv, kb, v.get("why") or v.get("kind")))
-                    continue
-                cls = rlpclass.class_of_type(v["ty"])
-                val = strip(v["value"])
-                if cls != want:
-                    problems.append("(%s, is_tcp=%d): key %r is stored as %s" % (fam, fv, kb, rlpclass.fmt(cls)))
-                if want == U16 and not (val.k == "call" and val.a[0].name == "port" and strip(val.a[1][0]).k == "param"):
-                    problems.append("(%s, is_tcp=%d): port value is %s" % (fam, fv, short(val, 80)))
-                if want[0] == "BYTES" and not (val.k == "vfield" and val.a[1] == fam):
-                    problems.append("(%s, is_tcp=%d): address value is %s" % (fam, fv, short(val, 80)))
-            table[(fam, fv)] = keys
-    ok = table == SOCKET_TABLE and not problems
-    report.check(rule, "set_socket/table", ok, "set_socket writes exactly {ip,tcp}/{ip,udp}/{ip6,tcp6}/{ip6,udp6} (plus the signer's key) by (family, is_tcp)",
-                 "set_socket writes %s; expected %s; %s" % ({k: sorted(v) for k, v in sorted(table.items())}, {k: sorted(v) for k, v in sorted(SOCKET_TABLE.items())}, "; ".join(sorted(set(problems)))),
-                 fn=f.path, sp=f.span, config=cfg)
+    van = assume(an, pred)
+    keys = set()
+    for b, t in f.calls():
+        if b.idx not in van.cfg.succ or not (t.callee and t.callee.name == "insert" and "BTreeMap" in t.callee.fn):
+            continue
+        kexpr = van.operand_expr(t.args[1], b.idx, len(b.stmts))
+        kb = const_key(kexpr)
+        if kb is None:
+            if is_pubkey_method(kexpr, "enr_key") is not None:
+                continue
+            problems.append("(%s, is_tcp=%d): a key that is not constant on this path: %s" % (fam, fv, short(kexpr, 100)))
+            continue
+        keys.add(kb)
+        v = value_is_rlp_of(van, t, 2)
+        want = {b"ip": ("BYTES", 4), b"ip6": ("BYTES", 16)}.get(kb, U16)
+        if v["kind"] != "rlp":
+            problems.append("(%s, is_tcp=%d): the value stored under %r is not one RLP-encoded value (%s)" % (fam, fv, kb, v.get("why") or v.get("kind")))
+            continue
+        cls = rlpclass.class_of_type(v["ty"])
+        val = strip(v["value"])
+        if cls != want:
+            problems.append("(%s, is_tcp=%d): key %r is stored as %s" % (fam, fv, kb, rlpclass.fmt(cls)))
+        if want == U16 and not (val.k == "call" and val.a[0].name == "port" and strip(val.a[1][0]).k == "param"):
+            problems.append("(%s, is_tcp=%d): port value is %s" % (fam, fv, short(val, 80)))
+        if want[0] == "BYTES" and not (val.k == "vfield" and val.a[1] == fam):
+            problems.append("(%s, is_tcp=%d): address value is %s" % (fam, fv, short(val, 80)))
+    return keys
+
+
+def set_socket_rule(ctx, report, rule="SOCKET"):
+    """partial evaluation of the socket setters over (address family, tcp/udp):
+    on the shared helper set_socket(socket, key, is_tcp) when the tree has it,
+    otherwise on each public setter with its private helpers spliced in"""
+    cfg = ctx.config
+    f = ctx.facts.fn("Enr::<K>::set_socket")
+    flag_param = sock_param = None
+    if f is not None:
+        for i, t in enumerate(f.inputs):
+            if t["s"] == "bool":
+                flag_param = i + 1
+            if t["s"] == "std::net::SocketAddr":
+                sock_param = i + 1
+    table = {}
+    problems = []
+    if f is not None and flag_param is not None and sock_param is not None:
+        report.analysed_fns.add(f.path)
+        an = ctx.an(f)
+        for fam in ("V4", "V6"):
+            for fv in (0, 1):
+                table[(fam, fv)] = _socket_keys(f, an, sock_param, flag_param, fam, fv, problems)
+        ok = table == SOCKET_TABLE and not problems
+        report.check(rule, "set_socket/table", ok, "set_socket writes exactly {ip,tcp}/{ip,udp}/{ip6,tcp6}/{ip6,udp6} (plus the signer's key) by (family, is_tcp)",
+                     "set_socket writes %s; expected %s; %s" % ({k: sorted(v) for k, v in sorted(table.items())}, {k: sorted(v) for k, v in sorted(SOCKET_TABLE.items())}, "; ".join(sorted(set(problems)))),
+                     fn=f.path, sp=f.span, config=cfg)
+        for path, flag in SOCKET_SETTERS.items():
+            g = fn_or_violate(ctx, report, rule, path)
+            if g is None:
+                continue
+            gan = ctx.an(g)
+            cs = [(b, t) for b, t in g.calls() if t.callee and t.callee.target() == "Enr::<K>::set_socket"]
+            ok = len(cs) == 1
+            if ok:
+                b, t = cs[0]
+                args = [strip(gan.operand_expr(a, b.idx, len(b.stmts))) for a in t.args]
+                ok = args[0].k == "param" and args[1].k == "param" and args[1].a[0] == 2 and args[2].k == "param" and args[2].a[0] == 3 and args[3].k == "const" and args[3].a[0] == flag
+            report.check(rule, g.name, ok, "%s = set_socket(socket, key, %s)" % (g.name, bool(flag)), "%s does not call set_socket(socket, key, %s)" % (g.name, bool(flag)), fn=g.path, sp=g.span, config=cfg)
+        return
+    # no bool-flag helper in this tree: decide each public setter on its own (private helpers are spliced in by the normaliser)
+    report.note("no Enr::set_socket(socket, key, bool) in %s: the socket table is decided on set_udp_socket / set_tcp_socket directly" % cfg)
     for path, flag in SOCKET_SETTERS.items():
         g = fn_or_violate(ctx, report, rule, path)
         if g is None:
             continue
         gan = ctx.an(g)
-        cs = [(b, t) for b, t in g.calls() if t.callee and t.callee.target() == "Enr::<K>::set_socket"]
-        ok = len(cs) == 1
-        if ok:
-            b, t = cs[0]
-            args = [strip(gan.operand_expr(a, b.idx, len(b.stmts))) for a in t.args]
-            ok = args[0].k == "param" and args[1].k == "param" and args[1].a[0] == 2 and args[2].k == "param" and args[2].a[0] == 3 and args[3].k == "const" and args[3].a[0] == flag
-        report.check(rule, g.name, ok, "%s = set_socket(socket, key, %s)" % (g.name, bool(flag)), "%s does not call set_socket(socket, key, %s)" % (g.name, bool(flag)), fn=g.path, sp=g.span, config=cfg)
+        sp_ = None
+        for i, t in enumerate(g.inputs):
+            if t["s"] == "std::net::SocketAddr":
+                sp_ = i + 1
+        for fam in ("V4", "V6"):
+            table[(fam, flag)] = _socket_keys(g, gan, sp_, None, fam, flag, problems)
+    ok = table == SOCKET_TABLE and not problems
+    report.check(rule, "set_socket/table", ok, "the socket setters write exactly {ip,tcp}/{ip,udp}/{ip6,tcp6}/{ip6,udp6} (plus the signer's key) by (family, transport)",
+                 "the socket setters write %s; expected %s; %s" % ({k: sorted(v) for k, v in sorted(table.items())}, {k: sorted(v) for k, v in sorted(SOCKET_TABLE.items())}, "; ".join(sorted(set(problems)))),
+                 config=cfg)
 
 
 def key_alternatives(an, kexpr, flag_param):
